@@ -218,7 +218,7 @@ func (e *Env) readMailbox(s *world.Sess, mailbox string, withBytes bool) ([]mode
 	}
 	items := "(UID FLAGS BODY.PEEK[HEADER.FIELDS (X-Sim-Marker)])"
 	if withBytes {
-		items = "(UID FLAGS BODY.PEEK[])"
+		items = "(UID FLAGS RFC822.SIZE BODY.PEEK[])"
 	}
 	r = s.Cmd("FETCH 1:* %s", items)
 	if !r.OK() {
@@ -249,6 +249,21 @@ func (e *Env) readMailbox(s *world.Sess, mailbox string, withBytes bool) ([]mode
 					}
 					row.Bytes = rest
 				}
+			}
+		}
+		if withBytes {
+			// what is served is one literal: its announced size is its length
+			var size, blen = -1, -1
+			for name, n := range fd.Items {
+				if name == "RFC822.SIZE" {
+					fmt.Sscan(n.Str, &size)
+				}
+				if strings.HasPrefix(name, "BODY[") {
+					blen = len(n.Str)
+				}
+			}
+			if size >= 0 && blen >= 0 && size != blen {
+				return nil, uidValidity, uidNext, fmt.Errorf("message <%d> (UID %d) of %q: RFC822.SIZE is %d but BODY[] has %d bytes", row.Marker, row.UID, mailbox, size, blen)
 			}
 		}
 		rows[fd.Seq-1] = row
